@@ -30,6 +30,11 @@ CONFIGS = {
 CONFIGS['h4d-cyclic-save'] = ([4, 3, 3, 3], 'handler', [2], [[0, 1, 2, 3], [0, 2, 3, 1], [0, 3, 1, 2], [1, 0, 2, 3]], True, 'f')
 CONFIGS['h4d-cyclic-uneven-save-c'] = ([5, 2, 3, 4], 'handler', [3], [[0, 1, 2, 3], [0, 2, 3, 1], [0, 3, 1, 2], [3, 2, 1, 0]], True, 'c')
 
+# a chain of four layouts on two distributed directions: the ends are three transposition steps apart (the grids of the
+# simulation never need more than two); generic extents and one point per process
+CONFIGS['h4-chain-2x2-save'] = ([4, 5, 6], 'handler', [2, 2], [[0, 1, 2], [0, 2, 1], [1, 2, 0], [1, 0, 2]], True, 'f')
+CONFIGS['h4-chain-2x2-unit-save-c'] = ([2, 2, 2], 'handler', [2, 2], [[0, 1, 2], [0, 2, 1], [1, 2, 0], [1, 0, 2]], True, 'c')
+CONFIGS['h4-chain-2x2-nosave'] = ([3, 4, 2], 'handler', [2, 2], [[0, 1, 2], [0, 2, 1], [1, 2, 0], [1, 0, 2]], False, 'f')
 
 # a square of layouts (every diagonal has two equally short two-step routes): the route map's tie-break by names is exercised
 # with names whose alphabetical order differs from the insertion order (suffix = names of the four layouts in insertion order)
